@@ -209,6 +209,41 @@ func ByMethodValue(a, b int) int {
 	return vrt.V(%[5]d, h()*1000+lazy()*100+cv())
 }
 
+func twoCells(n int) (*cell, bool) { return &cell{n}, true }
+
+func ByRedeclare(a, b int) int {
+	p := &cell{a}
+	h := func() int { return p.Get() } // p is rebound below by a redeclaring ':='
+	p, ok := twoCells(b * 10)
+	_ = ok
+	q := &cell{a + 1}
+	g := func() int { return q.Get() }
+	if b > 1 {
+		q, ok = twoCells(b) // plain tuple assignment
+	}
+	return vrt.V(%[7]d, h()*100+g())
+}
+
+func ByLoopShared(a, b int) int {
+	var fs []func() int
+	var p *cell
+	for i := 0; i < 3; i++ {
+		p = &cell{a + i} // the write sits textually BEFORE the literal but runs again after it was created
+		fs = append(fs, func() int { return p.Get() })
+	}
+	sum := 0
+	for _, f := range fs {
+		sum = sum*10 + f()
+	}
+	var r *cell
+	set := func(n int) { r = &cell{n} }
+	get := func() int { return r.Get() }
+	set(b)
+	first := get
+	set(b + 5)
+	return vrt.V(%[8]d, sum*100+first())
+}
+
 func ByBuiltins(a, b int) int {
 	l := func(s string) int { return len(s) }
 	cv := func(x int) int64 { return int64(x) }
@@ -218,7 +253,7 @@ func ByBuiltins(a, b int) int {
 	xs := ap(nil, a)
 	return vrt.V(%[6]d, l("abc")+int(cv(a))+id(b)+pk()+len(xs)+pinit+mb.OnesCount(uint(a+8)))
 }
-`, k1, k2, k3, tag(), tag(), tag())
+`, k1, k2, k3, tag(), tag(), tag(), tag(), tag())
 	genSrc := fmt.Sprintf(`func OptLoopCond(a, b int) «Iter[int]» {
 	n := 0
 	p := func() bool { return n < a }
@@ -295,6 +330,8 @@ func OptDelay(a, b int) (_ «Iter[int]») {
 	funcs = []*Func{
 		mk("ByFuncVar", false, "eta_shape_callee_function_variable"),
 		mk("ByMethodValue", false, "eta_shape_callee_method_value"),
+		mk("ByRedeclare", false, "eta_shape_receiver_rebound_by_redeclaring_define"),
+		mk("ByLoopShared", false, "eta_shape_in_loop_sharing_a_variable_written_before_the_literal"),
 		mk("ByBuiltins", false, "eta_shape_callee_builtin_conversion_generic", "import_used_only_by_bystander", "import_blank", "import_renamed"),
 		mk("OptLoopCond", true, "loop_condition_calls_reassigned_variable"),
 		mk("OptEtaInGen", true, "eta_shape_inside_generator", "import_used_only_by_generator_code", "import_dot"),
